@@ -181,6 +181,22 @@ def replay_case(arg):
                 fail('GradSlotOK', 'gradient', dict(positions=bad[:6], got=g.tolist(), expected=exp_g.tolist()))
         if not np.array_equal(x_in, x):
             fail('NoInputWrite', 'parameters_modified', None)
+    # ---- the user's filter object is not consumed: a second posterior built from the SAME filter object (and the same
+    # unsorted times) scores like the first, and the first is unaffected by the construction of the second
+    if not fails:
+        try:
+            with warnings.catch_warnings():
+                warnings.simplefilter('error', RuntimeWarning)
+                v_first = float(post(x.copy()))
+                post2 = chi.PopulationFilterLogPosterior(
+                    filt, times.copy(), mech, pop, prior, sigma=sig_fixed, error_on_log_scale=log_scale, n_samples=ns,
+                    covariates=(covs if rec['ncov'] > 0 else None))
+                v_second, v_again = float(post2(x.copy())), float(post(x.copy()))
+            cnt['evaluations'] = cnt.get('evaluations', 0) + 3
+            if not (interp.close(v_second, v_first) and interp.close(v_again, v_first)):
+                fail('FilterReuse', 'second_posterior_from_same_filter', dict(first=v_first, second=v_second, first_again=v_again))
+        except Exception as e:
+            fail('FilterReuse', type(e).__name__, repr(e))
     if max(diffs) - min(diffs) > 1e-9 * vscale:
         fail('Denotation', 'value_up_to_constant', dict(differences=diffs, filter=kinds_in, log_scale=log_scale))
     return fails, cnt
